@@ -571,6 +571,62 @@ class Sim:
             self.cycles[d] += 1
             heapq.heappush(heap, (ck.edge_time(ck.k), d))
 
+    # ---- CDC fault model --------------------------------------------------------------------------
+    def enable_metastability(self, window, decisions):
+        """Two-outcome metastability model on the first flop of every (tracked) MultiReg.
+
+        When the synchroniser input changed less than `window` time units before the sampling edge of the
+        output domain (or exactly at it), each changed bit may resolve to the old or to the new value;
+        `decisions` is a cyclic list of bit masks (1 = deviate from the ideal pre-edge sample).
+        Returns a dict with the number of sampling events inside the window and the number altered."""
+        st = {"near": 0, "altered": 0}
+        self.meta_stats = st
+        trk = []
+        for (i, r0, od) in self.multiregs:
+            if not isinstance(i, Signal):
+                continue
+            ii = self.index(i)
+            trk.append([ii, self.index(r0), od, self.S[ii], self.S[ii], -10 ** 18])  # idx_i, idx_r0, dom, last, prev, t_change
+        dec = list(decisions) or [0]
+        k = [0]
+
+        def commit_hook(sim):
+            S = sim.S
+            for t in trk:
+                if t[2] in sim.doms:
+                    if 0 < sim.now - t[5] < window and t[3] != t[4]:
+                        st["near"] += 1
+                        m = dec[k[0] % len(dec)]
+                        k[0] += 1
+                        diff = (t[3] ^ t[4]) & m
+                        if diff:
+                            # sampled value is t[3] (new); changed bits selected by the mask resolve to old
+                            S[t[1]] = (S[t[1]] & ~diff) | (t[4] & diff)
+                            st["altered"] += 1
+                            sim.ev("meta", t[1], diff)
+
+        def post_hook(sim):
+            S = sim.S
+            for t in trk:
+                cur = S[t[0]]
+                if cur != t[3]:
+                    t[4] = t[3]
+                    t[3] = cur
+                    t[5] = sim.now
+                    if t[2] in sim.doms:
+                        # input changed at the very instant of the sampling edge: ideal sample is old, may be new
+                        st["near"] += 1
+                        m = dec[k[0] % len(dec)]
+                        k[0] += 1
+                        diff = (t[3] ^ t[4]) & m
+                        if diff:
+                            S[t[1]] = (S[t[1]] & ~diff) | (t[3] & diff)
+                            st["altered"] += 1
+                            sim.ev("meta", t[1], diff)
+        self.commit_hooks.append(commit_hook)
+        self.post_hooks.append(post_hook)
+        return st
+
     def run(self, max_cycles, domain="sys"):
         cyc = self.cycles
         while not self.stop and cyc[domain] < max_cycles:
